@@ -404,3 +404,5 @@ func statusOf(r *http.Response) int {
 }
 
 func urlEscape(s string) string { return url.QueryEscape(s) }
+
+func mkdirAll(d string) { os.MkdirAll(d, 0o700) }
